@@ -1229,6 +1229,10 @@ class GraphProp:
 
     # ------------------------------------------------------------------ execute
     def execute(self, case):
+        if case.get("witness"):
+            from simkit import witness
+
+            return witness.run(case["witness"])
         T.work, T.budget = 0, 600000
         try:
             return self._execute(case)
@@ -2189,7 +2193,9 @@ class GraphProp:
         return {**case, "faults": faults}
 
     def match_known(self, case, violation):
+        if case.get("witness"):
+            return case["witness"] if violation["class"] == "known-witness" else None
         return None
 
     def witnesses(self):
-        return {}
+        return {fid: {"witness": fid} for fid in ['C10/sparse-duplicates-canonicalised-in-place']}
